@@ -189,6 +189,10 @@ def bounded(chk):
     chk.bounded_result("write_zip_read_roundtrip", n2, n2, False,
                        "FsOutput.write_pages/close -> zip -> extractall -> NuWiki: every revision by revid, every title (4 spellings) -> newest revision; texts with near-separators, CR/LF, empty, non-BMP",
                        [f2] if f2 else [])
+    bad, w, cls = replay_redirect(None, None)
+    chk.bounded_result("redirect_with_stored_stub", 2, 1, True,
+                       "archive holding the redirecting stub, the target and the redirects.json entry (what the fetcher writes): the stub's title, in two spellings, leads to the target's text",
+                       [{"detail": str(w), "witness": w, "class": cls}] if bad else [])
 
 
 def replay(model, obligation):
@@ -205,12 +209,13 @@ def run(chk):
     p_record_format(chk)
     p_fs_escape(chk)
     p_fs_escape_loop(chk)
+    p_get_page_by_title(chk)
     bounded(chk)
     chk.vc_replay["C14."] = replay
     chk.assumptions += [
         "json.dumps without indent emits no raw newline (JSON escapes control characters)",
         "str(ord(c)) is a non-empty string of digits, injective in c",
-        "the per-function composition (write_pages loop, _read_revisions loops, _get_page) is covered by the bounded round trip, not by discharged contracts",
+        "the per-function composition (write_pages loop, _read_revisions loops) is covered by the bounded round trip, not by discharged contracts; _get_page by title is under contract (redirect table first), its by-revision branch is bounded only",
         "excluded as the property says: texts containing the separator; additionally texts starting with '\\x0c --page-- ' (they complete a separator with the header's newline: known finding)",
     ]
 
@@ -280,3 +285,73 @@ def replay_fs_escape_loop(model, obligation):
     if fail:
         return True, fail["witness"], "collision"
     return False, {"titles": n}, None
+
+
+# ----------------------------------------------------------------------------- NuWiki._get_page by title: the redirect table is consulted first
+def p_get_page_by_title(chk):
+    """Contract (C14: every equivalent spelling and every redirect recorded in redirects.json leads to the
+    target's stored page): for a lookup by title, if `name` has an entry in the redirect table and the target is
+    stored, the target's page is returned - also when the redirecting page itself is stored (the fetcher stores
+    stub, target and table entry together); otherwise the page stored under `name`."""
+    from pyvc.interp import Explorer
+    from pyvc.values import PObj, SStr, SMap, SRef, ClassRef
+    ex = Explorer()
+    mod = source.module(NUWIKI)
+    ncls = ClassRef(mod.defs["NuWiki"], mod)
+    fn = ex.function(NUWIKI, "NuWiki._get_page")
+    S, Z, B = z3.StringSort(), z3.IntSort(), z3.BoolSort()
+    red_has = z3.Function("redirects_has", S, B)
+    red_get = z3.Function("redirects_get", S, S)
+    rev_of = z3.Function("stored_page_of_title", S, Z)      # 0: nothing stored under that title
+
+    def page(term):
+        return None if term is None else SRef("page", term)
+
+    def rev_get(I, k):
+        return SRef("page", rev_of(z3_of_(k)))
+
+    def z3_of_(v):
+        from pyvc.values import z3_of
+        return z3_of(v)
+    redirects = SMap(lambda I, k: red_has(z3_of_(k)), lambda I, k: SStr(red_get(z3_of_(k))), "redirects")
+    revisions = SMap(lambda I, k: rev_of(z3_of_(k)) != 0, rev_get, "revisions")
+    # `a or b` on page references: a reference is falsy iff it is None (pages define no __bool__/__len__)
+
+    def harness(I):
+        name = I.fresh("name", S)
+        I.inputs["name"] = name
+        me = PObj(ncls, {"redirects": redirects, "revisions": revisions})
+        out = ex.run_function(I, fn, [me, SStr(name)])
+        I.oblige("no_raise", out.returned)
+        r = out.value
+        got = z3.IntVal(0) if r is None else r.z
+        target = red_get(name)
+        want = z3.If(z3.And(red_has(name), rev_of(target) != 0), rev_of(target), rev_of(name))
+        I.oblige("redirect_target_first_then_the_page_itself", got == want)
+    chk.prove("nuwiki.NuWiki._get_page[by title]", harness, ex, targets=[fn], replay=replay_redirect)
+
+
+def replay_redirect(model, obligation):
+    """real NuWiki over a directory written by the real FsOutput: stub + target + redirects.json entry, as the
+    fetcher writes them when a page fetched by revision id turns out to be a redirect"""
+    import os, shutil, tempfile
+    from mwlib.core import nuwiki
+    from mwlib.network import siteinfo
+    from mwlib.network.fetch import FsOutput
+    base = tempfile.mkdtemp(prefix="verif_c14_")
+    try:
+        path = os.path.join(base, "nuwiki")
+        out = FsOutput(path)
+        out.dump_json(siteinfo=siteinfo.get_siteinfo("en"))
+        out.write_pages({"pages": {"1": {"title": "Old name", "ns": 0, "revisions": [{"revid": 1, "*": "#REDIRECT [[New name]]"}]}}})
+        out.write_pages({"pages": {"2": {"title": "New name", "ns": 0, "revisions": [{"revid": 2, "*": "the real text"}]}}})
+        out.dump_json(redirects={"Old name": "New name"})
+        out.close()
+        w = nuwiki.NuWiki(path)
+        for how, p in (("get_page('Old name')", w.get_page("Old name")), ("normalize_and_get_page('old_name', 0)", w.normalize_and_get_page("old_name", 0))):
+            if p is None or p.rawtext != "the real text":
+                return True, {"archive": "stub 'Old name' (#REDIRECT [[New name]]), page 'New name', redirects.json {'Old name': 'New name'}",
+                              how: None if p is None else p.rawtext}, "redirect_precedence"
+        return False, {"cases": 2}, None
+    finally:
+        shutil.rmtree(base, ignore_errors=True)
